@@ -69,6 +69,22 @@ class Check:
                         except Exception as e:
                             res[how] = ('err', type(e).__name__)
                         n += 1
+                    if res['str'][0] == 'ok' and enc == 'utf-8':
+                        # the same content through the class it belongs to and, for roElementAction, through ElementAction
+                        import mosromgr.mostypes as MT
+                        entry = [getattr(MT, res['str'][1])] + ([MT.ElementAction] if res['str'][1].startswith('EA') else [])
+                        for cls_ in entry:
+                            for how, fn in (('file', lambda: cls_.from_file(path)), ('bytes', lambda: cls_.from_string(data)),
+                                            ('s3', lambda: cls_.from_s3('b', 'k.mos.xml')), ('str', lambda: cls_.from_string(text))):
+                                try:
+                                    mo = fn()
+                                    r_ = ('ok', type(mo).__name__, str(mo))
+                                except Exception as e:
+                                    r_ = ('err', type(e).__name__)
+                                n += 1
+                                if r_ != res['str']:
+                                    vio.append({'what': '%s.from_%s gives %r, MosFile.from_string gives %r' % (cls_.__name__, how if how != 'bytes' else 'string(bytes)', r_[:2], res['str'][:2]),
+                                                'case': {'kind': 'source', 'text': text, 'encoding': enc, 'entry': cls_.__name__}, 'impl': r_[:2], 'expected': res['str'][:2]})
                     sigs.add(('source', enc, res['str'][:2]))
                     bad = [h for h in ('file', 'bytes', 's3') if res[h] != res['str']]
                     if bad:
